@@ -118,7 +118,9 @@ FamC03s(dummy) ==
 FamC03a(dummy) ==
   {Run(P, <<>>, ItemIds(P, {"and_then"})) :
      P \in {Build(Kind(TRUE, t, sp), "res", pr, StepC03, NoName, ExprInit, "none") :
-              t \in BOOLEAN, sp \in BOOLEAN, pr \in {q \in ProfC03 : Tier # "quick" \/ Len(q) <= 2 \/ q = <<2, 1, 2>>}}}
+              t \in BOOLEAN, sp \in BOOLEAN,
+              pr \in IF Tier = "quick" THEN {q \in ProfC03 : Len(q) <= 2 \/ q = <<2, 1, 2>>}
+                     ELSE Profiles(2, 3) \cup {<<2, 1, 2>>, <<1, 2, 2>>, <<2, 2, 2>>, <<3, 1, 2>>}}}
 \* sequential macros and small concurrent ones with the full history (order invariants)
 FamC03h(dummy) ==
   {Run(P, <<>>, IF P.kind.spawn \/ P.kind.async THEN ItemIds(P, {"and_then"}) ELSE {}) :
@@ -403,7 +405,7 @@ Release ==
 Ready ==
   /\ IsAsync(s.prog) /\ ~s.inpoll /\ s.ph \notin {"new", "created0", "ended", "closed"} /\ ~s.polldone
   /\ \E G \in (SUBSET (s.gates \ s.released)) \ {{}} :
-        /\ Quiescent => (G \subseteq ArrivedSet(s) /\ BranchEvents(s) = {} /\ (Tier = "quick" => ~s.woken))
+        /\ Quiescent => (G \subseteq ArrivedSet(s) /\ BranchEvents(s) = {} /\ ((Tier = "quick" \/ NB(s.prog) > 2) => ~s.woken))
         /\ s' = ApplyRelease(s, G)
         /\ sched' = IF ~Emit THEN sched ELSE Append(sched, SE("ready", SetToSeq(G), <<>>, FALSE, FALSE))
         /\ hist' = hist
